@@ -67,7 +67,11 @@ Inductive case :=
 | CDef (id : N) (d : def) (vobs : bool) (mobs : option bytes) (fobs : fres)
        (logs : list (log * mres * bool))
   (* UnmarshalBytes on arbitrary bytes: the decoded definition or the error class *)
-| CDecode (id : N) (b : bytes) (obs : ures).
+| CDecode (id : N) (b : bytes) (obs : ures)
+  (* a batch: every definition was encoded first (all byte slices retained), then every retained
+     slice was decoded; obs are the decoder's answers in order. Only definitions whose
+     MarshalBytes does not panic are put in a batch. *)
+| CBatch (id : N) (ds : list def) (obs : list ures).
 
 Definition model_passes (d : def) (lg : log) : bool :=
   match to_filter d with
@@ -79,6 +83,11 @@ Definition check_log (d : def) (x : log * mres * bool) : bool :=
   let '(lg, mobs, pobs) := x in
   mres_eqb (match_def d lg) mobs && Bool.eqb (model_passes d lg) pobs.
 
+(* encoding is a function of the definition alone: decoding what MarshalBytes returned gives the
+   same answer however many other definitions were encoded in between *)
+Definition roundtrip_model (d : def) : ures :=
+  match marshal d with Some b => unmarshal b | None => UDecode end.
+
 Definition check_case (c : case) : list N :=
   match c with
   | CDef id d vobs mobs fobs logs =>
@@ -89,6 +98,8 @@ Definition check_case (c : case) : list N :=
       then [] else [id]
   | CDecode id b obs =>
       if ures_eqb (unmarshal b) obs then [] else [id]
+  | CBatch id ds obs =>
+      if list_eqb ures_eqb (map roundtrip_model ds) obs then [] else [id]
   end.
 
 Definition mismatches (cs : list case) : list N := flat_map check_case cs.
